@@ -169,6 +169,19 @@ Theorem pdhg_solution_is_fixed_point :
 Proof. intros; apply (pdhg_fixed_point_iter X Y A f gc proxF proxGc); auto; split; auto. Qed.
 Print Assumptions pdhg_solution_is_fixed_point.
 
+(* the same for accelerated pdhg (gamma_primal / gamma_dual), whose steps change every iteration *)
+Theorem pdhg_accelerated_solution_is_fixed_point :
+  forall (X Y : IPS) (A : LinOp X Y) (f : cfun X) (gc : cfun Y) (proxF : R -> X -> X) (proxGc : R -> Y -> Y),
+  convex X f -> convex Y gc -> prox_of X f proxF -> prox_of Y gc proxGc ->
+  forall (primal : bool) (rts : list R) (tau sigma : R) (xs : X) (ys : Y),
+  0 < tau -> 0 < sigma -> Forall (fun r => 0 < r) rts ->
+  subgrad X f xs ((- (1)) *' adj A ys) -> subgrad Y gc ys (A xs) ->
+  Forall (fun s => s = {| pd_x := xs; pd_xr := xs; pd_y := ys |})
+         (pdhg_acc_run X Y vplus smul vplus smul A (adj A) proxF proxGc primal rts tau sigma
+                       {| pd_x := xs; pd_xr := xs; pd_y := ys |}).
+Proof. intros; apply (pdhg_accelerated_fixed_point X Y A f gc proxF proxGc); auto; split; auto. Qed.
+Print Assumptions pdhg_accelerated_solution_is_fixed_point.
+
 (* ... and a state that a PDHG step leaves unchanged satisfies the optimality conditions *)
 Theorem pdhg_fixed_point_is_solution :
   forall (X Y : IPS) (A : LinOp X Y) (f : cfun X) (gc : cfun Y) (proxF : R -> X -> X) (proxGc : R -> Y -> Y),
